@@ -82,6 +82,9 @@ func build(t *rapid.T, verb, kind string, id uint32, have map[string]map[uint32]
 			if have["QER"][q] && rapid.IntRange(0, 2).Draw(t, "qer") == 0 {
 				r.QERs = append(r.QERs, q)
 			}
+			if have["URR"][q] && rapid.IntRange(0, 1).Draw(t, "urr") == 0 {
+				r.URRs = append(r.URRs, q)
+			}
 		}
 	}
 	return r
